@@ -1,9 +1,9 @@
 SPECIFICATION Spec
 CONSTANTS
-  CID = {"c1", "c2"}
-  EXCH = {"x1"}
+  CID = {"c1"}
+  EXCH = {"x1", "x2"}
   MaxSends = 2
-  MaxKills = 1
+  MaxKills = 2
 INVARIANTS TypeOK AtMostOnce InFlightBacked Routed ConnMatchesLinks
 PROPERTIES Resolved Noticed Synced
 CHECK_DEADLOCK FALSE
